@@ -33,6 +33,7 @@ struct Inv {
 struct V<'a> {
     ctx: &'a Ctx,
     inv: &'a mut Inv,
+    rle_arm_depth: usize,
 }
 
 fn norm(ts: impl quote::ToTokens) -> String {
@@ -132,6 +133,18 @@ impl<'a, 'ast> Visit<'ast> for V<'a> {
         }
         syn::visit::visit_expr_if(self, e);
     }
+    fn visit_expr_match(&mut self, m: &'ast syn::ExprMatch) {
+        // a match that hands the limit error on explicitly (`Err(ParserError::RecursionLimitExceeded) => ..`)
+        // does not discard it in its catch-all `Err(_)` arm
+        let propagates = m.arms.iter().any(|a| norm(&a.pat).contains("RecursionLimitExceeded"));
+        if propagates {
+            self.rle_arm_depth += 1;
+            syn::visit::visit_expr_match(self, m);
+            self.rle_arm_depth -= 1;
+        } else {
+            syn::visit::visit_expr_match(self, m);
+        }
+    }
     fn visit_arm(&mut self, a: &'ast syn::Arm) {
         if let Some((_, g)) = &a.guard {
             let gs = norm(g);
@@ -140,7 +153,7 @@ impl<'a, 'ast> Visit<'ast> for V<'a> {
             }
         }
         let p = norm(&a.pat);
-        if p == "Err (_)" {
+        if p == "Err (_)" && self.rle_arm_depth == 0 {
             self.inv.err_discard.insert(format!("{}: Err(_) => {}", self.key(), trunc(&norm(&a.body), 50)));
         }
         syn::visit::visit_arm(self, a);
@@ -188,7 +201,7 @@ fn walk_items(items: &[syn::Item], file: &str, inv: &mut Inv) {
         match it {
             syn::Item::Fn(f) if !is_cfg_test(&f.attrs) => {
                 let ctx = Ctx { file: file.into(), owner: "free".into(), func: f.sig.ident.to_string() };
-                V { ctx: &ctx, inv }.visit_block(&f.block);
+                V { ctx: &ctx, inv, rle_arm_depth: 0 }.visit_block(&f.block);
             }
             syn::Item::Impl(im) if !is_cfg_test(&im.attrs) => {
                 let ty = type_name(&im.self_ty);
@@ -197,7 +210,7 @@ fn walk_items(items: &[syn::Item], file: &str, inv: &mut Inv) {
                     if let syn::ImplItem::Fn(f) = ii {
                         if is_cfg_test(&f.attrs) { continue; }
                         let ctx = Ctx { file: file.into(), owner: owner.clone(), func: f.sig.ident.to_string() };
-                        V { ctx: &ctx, inv }.visit_block(&f.block);
+                        V { ctx: &ctx, inv, rle_arm_depth: 0 }.visit_block(&f.block);
                     }
                 }
             }
@@ -206,7 +219,7 @@ fn walk_items(items: &[syn::Item], file: &str, inv: &mut Inv) {
                     if let syn::TraitItem::Fn(f) = ti {
                         if let Some(b) = &f.default {
                             let ctx = Ctx { file: file.into(), owner: format!("trait {}", t.ident), func: f.sig.ident.to_string() };
-                            V { ctx: &ctx, inv }.visit_block(b);
+                            V { ctx: &ctx, inv, rle_arm_depth: 0 }.visit_block(b);
                         }
                     }
                 }
